@@ -22,23 +22,50 @@ type Case struct {
 	Rounds     [][]int `json:"rounds"`                // assumption list of each round
 	NbMax      int     `json:"nbmax,omitempty"`
 	CP         bool    `json:"cp,omitempty"` // the cutting-planes strategy is switched on for the whole history
+	// Front "card" / "pb": the base problem is Constrs (through ParseCardConstrs / ParsePBConstrs) plus Clauses given as
+	// clause constraints; "" : Clauses through ParseSliceNb.
+	Front   string   `json:"front,omitempty"`
+	Constrs []gen.PC `json:"constrs,omitempty"`
 }
 
 func check(c Case, o *vf.Obs) error {
 	gs.Arm(c.NbMax, gs.DefaultStepLimit)
 	defer gs.Arm(0, 0)
-	pb := solver.ParseSliceNb(oracle.CloneCNF(c.Clauses), c.N)
+	var pb *solver.Problem
+	base := oracle.CNFPred(c.Clauses)
+	var sems []oracle.Constr
+	if c.Front == "" {
+		pb = solver.ParseSliceNb(oracle.CloneCNF(c.Clauses), c.N)
+	} else {
+		all := append([]gen.PC{}, c.Constrs...)
+		for _, cl := range c.Clauses {
+			all = append(all, gen.PC{Kind: "clause", Lits: cl})
+		}
+		sems = gen.Sems(all)
+		if c.Front == "card" {
+			pb = solver.ParseCardConstrs(gs.CardConstrsOf(all))
+		} else {
+			cs := gs.PBConstrsOf(all)
+			cs = append(cs, solver.GtEq([]int{c.N}, []int{1}, 0)) // declares variable N (trivially true, dropped)
+			pb = solver.ParsePBConstrs(cs)
+		}
+		base = func(m uint64) bool { return oracle.AllTrue(sems, m) }
+		o.Class("base-" + c.Front + "-constraints")
+		if pb.Status != solver.Unsat && pb.NbVars != c.N {
+			return fmt.Errorf("%w: harness: the parsed problem has %d variables, expected %d", vf.ErrInconclusive, pb.NbVars, c.N)
+		}
+	}
 	_, hasUnit, _, _ := gen.Shapes(c.Clauses)
 	o.ClassIf(hasUnit, "base-has-unit-clause")
 	o.ClassIf(len(pb.Units) > 0, "base-parse-facts")
 	o.ClassIf(pb.Status != solver.Indet, "base-parse-decided")
-	base := oracle.CNFPred(c.Clauses)
 	s := solver.New(pb)
 	s.CuttingPlanes = c.CP
 	o.ClassIf(c.CP, "cutting-planes")
 	if c.SolveFirst {
 		st := s.Solve()
-		if truth := oracle.CNFSat(c.N, c.Clauses); truth != (st == solver.Sat) {
+		_, truth := oracle.AnyModel(c.N, base)
+		if truth != (st == solver.Sat) {
 			return fmt.Errorf("initial Solve = %v, satisfiable=%v", st, truth)
 		}
 	}
@@ -94,6 +121,9 @@ func check(c Case, o *vf.Obs) error {
 				return fmt.Errorf("round %d: model %v violates clause #%d %v of the problem (assumptions %v)", r, model, i, c.Clauses[i], as)
 			}
 			m := oracle.MaskOf(model)
+			if i := oracle.FirstFalse(sems, m); i >= 0 {
+				return fmt.Errorf("round %d: model %v violates constraint #%d %v of the problem (assumptions %v)", r, model, i, sems[i], as)
+			}
 			for _, l := range as {
 				if !oracle.LitTrue(l, m) {
 					return fmt.Errorf("round %d: model %v violates assumption %d", r, model, l)
@@ -125,6 +155,57 @@ func check(c Case, o *vf.Obs) error {
 		o.Nontrivial()
 	}
 	return nil
+}
+
+// genConstrBase: a base problem mixing clauses with cardinality or weighted constraints of 3..6 literals (degree >= 2,
+// either polarity): an assumed literal is often true inside a constraint that then acts as a reason.
+func genConstrBase(front string) func(t *rapid.T) Case {
+	return func(t *rapid.T) Case {
+		var c Case
+		c.Front = front
+		c.N = gen.Uniform(t, 5, 12, "n")
+		for i, k := 0, gen.Uniform(t, 1, 5, "constrs"); i < k; i++ {
+			ls := gen.DistinctLits(t, c.N, gen.Uniform(t, 3, min(6, c.N), "len"), "l")
+			if front == "card" || rapid.Bool().Draw(t, "plainCard") {
+				c.Constrs = append(c.Constrs, gen.PC{Kind: "atleast", Lits: ls, K: gen.Uniform(t, 2, max(2, len(ls)/2+1), "k")})
+			} else {
+				co := make([]int, len(ls))
+				sum := 0
+				for j := range co {
+					co[j] = rapid.IntRange(1, 3).Draw(t, "co")
+					sum += co[j]
+				}
+				c.Constrs = append(c.Constrs, gen.PC{Kind: "gteq", Lits: ls, Coefs: co, K: gen.Uniform(t, 2, max(2, sum/2+1), "k")})
+			}
+		}
+		for i, k := 0, gen.Uniform(t, c.N/2, 2*c.N, "clauses"); i < k; i++ {
+			c.Clauses = append(c.Clauses, gen.DistinctLits(t, c.N, gen.Uniform(t, 2, 3, "clen"), "c"))
+		}
+		if gen.Chance(t, 1, 4, "unit") {
+			c.Clauses = append(c.Clauses, []int{gen.Lit(t, c.N, "u")})
+		}
+		if gen.Chance(t, 1, 3, "low") {
+			c.NbMax = rapid.IntRange(2, 10).Draw(t, "tinyLimit")
+		}
+		c.SolveFirst = gen.Chance(t, 1, 4, "solveFirst")
+		c.CP = gen.Chance(t, 1, 4, "cuttingPlanes")
+		genRounds(t, &c)
+		return c
+	}
+}
+
+func min(a, b int) int {
+	if a < b {
+		return a
+	}
+	return b
+}
+
+func max(a, b int) int {
+	if a > b {
+		return a
+	}
+	return b
 }
 
 func genRounds(t *rapid.T, c *Case) {
@@ -344,6 +425,10 @@ func init() {
 func init() {
 	tail := "; 1..6 rounds, each Assume(list of 0..5 literals: random, repeated, contradicting each other, contradicting the previous round, contradicting/repeating a unit clause) then Solve; oracle per round = truth table of base AND this round's assumptions only; non-trivial = >=2 rounds with different verdicts or a round after an Unsat round"
 	vf.Register(
+		vf.Sub[Case]{Name: "card-base", Quick: 8000, Thorough: 100000, Gen: genConstrBase("card"), Check: check, Floor: 0.15,
+			Rule: "base = 1..5 cardinality constraints of 3..6 literals (degree >= 2, either polarity) plus n/2..2n clauses of 2..3 literals over 5..12 variables, through ParseCardConstrs" + tail},
+		vf.Sub[Case]{Name: "pb-base", Quick: 8000, Thorough: 100000, Gen: genConstrBase("pb"), Check: check, Floor: 0.15,
+			Rule: "the same with weighted constraints (coefficients 1..3) among them, through ParsePBConstrs" + tail},
 		vf.Sub[Case]{Name: "small", Quick: 15000, Thorough: 200000, Gen: genSmall, Check: check, Floor: 0.2,
 			Rule: "base CNF n<=10 with unit clauses, duplicate literals, unused variables" + tail},
 		vf.Sub[Case]{Name: "conflict-rich", Quick: 3000, Thorough: 40000, Gen: genHard, Check: check, Floor: 0.3,
